@@ -75,7 +75,6 @@ Fails(excs) == /\ E.exc \in excs
 Init == l = 1 /\ q = EmptyF /\ kind = EmptyF
 
 Reset == IsEv("reset") /\ q' = EmptyF /\ kind' = EmptyF
-         /\ (Mode = "own" => (E.led = <<>> /\ E.lerr = 0))
 End == IsEv("end") /\ UNCHANGED <<q, kind>> /\ (Mode = "own" => (E.led = <<>> /\ E.lerr = 0))
 
 New == IsEv("new") /\ E.exc = "" /\ Step(With(q, E.o, E.init), With(kind, E.o, E.what))
@@ -113,8 +112,10 @@ IndexWhats == {"get_len", "get_neg", "get_far", "get_max", "get_min", "set_len",
 Expected(w) ==
   CASE w \in IndexWhats -> {"IndexOutOfBoundsError"}
     [] w = "pop_empty" -> {"IndexOutOfBoundsError"}
-    [] w \in {"get_nullkey", "set_null", "push_null", "rem_null", "mem_null", "concat_null"} -> {"ValueError"}
-    [] w \in {"get_alienkey", "set_alienkey", "popat_alienkey", "set_alien", "push_alien", "concat_int", "assign_int"}
+    [] w \in {"get_nullkey", "set_null", "push_null", "pushat_null", "rem_null", "concat_null"} -> {"ValueError"}
+    [] w = "mem_null" -> {"ValueError", ""}          \* "NULL is not a member" is an acceptable answer (empty container)
+    [] w \in {"get_alienkey", "set_alienkey", "popat_alienkey", "set_alien", "push_alien", "pushat_alien", "concat_alien",
+               "concat_int", "assign_int"}
          -> {"ClassError", "TypeError", "ValueError"}
     [] w = "resize_grow" -> {"FormatError"}
     [] OTHER -> {}
